@@ -1,3 +1,62 @@
 package main
 
-func (g *gen) stream6(name string, n int) bool { return false }
+func (g *gen) stream6(name string, n int) bool {
+	switch name {
+	case "hmac-hist":
+		g.hmacHist(n)
+	default:
+		return g.stream7(name, n)
+	}
+	return true
+}
+
+// sequences of acquire(key)/write*/sum/reset/put over keys on both sides of the 64-byte block and messages in random
+// chunkings; objects go back to the pool and come out again with another key
+func (g *gen) hmacHist(n int) {
+	g.caseMark("hmac-conc", 0)
+	g.emit("HMCONC 8 %d %d", 200+n, g.r.intn(1<<30))
+	g.emit("HMCONC 2 %d %d", 200+n, g.r.intn(1<<30))
+	for i := 0; i < n; i++ {
+		g.caseMark("hmac-hist", i)
+		alg := []string{"sha1", "sha256"}[g.r.intn(2)]
+		live := map[int]bool{}
+		for k := 3 + g.r.intn(40); k > 0; k-- {
+			slot := g.r.intn(3)
+			if !live[slot] {
+				kl := g.keyLen()
+				if g.r.chance(1, 4) {
+					kl = g.r.intn(301)
+				}
+				if g.r.chance(1, 8) {
+					g.emit("HM new %s %d %s", alg, slot, showHex(g.r.bytes(kl)))
+				} else {
+					g.emit("HM acquire %s %d %s", alg, slot, showHex(g.r.bytes(kl)))
+				}
+				live[slot] = true
+				continue
+			}
+			switch op := g.r.intn(10); {
+			case op < 4:
+				l := g.r.intn(200)
+				if g.r.chance(1, 10) {
+					l = g.r.intn(4097)
+				}
+				g.emit("HM write %d %s", slot, showHex(g.r.bytes(l)))
+			case op < 7:
+				g.emit("HM sum %d %s", slot, showHex(g.r.bytes(g.r.intn(5))))
+			case op < 9:
+				g.emit("HM reset %d", slot)
+			default:
+				g.emit("HM sum %d -", slot)
+				g.emit("HM put %d", slot)
+				live[slot] = false
+			}
+		}
+		for s := 0; s < 3; s++ {
+			if live[s] {
+				g.emit("HM sum %d -", s)
+				g.emit("HM put %d", s)
+			}
+		}
+	}
+}
